@@ -737,3 +737,22 @@ pub fn gen_c15(s: &mut Source) -> (Program, Names, Vec<&'static str>) {
     let kinds: Vec<&'static str> = g.kinds_seen.iter().copied().collect();
     (Program { nq, body }, g.names, kinds)
 }
+
+
+/// C08: the C13 generator restricted to the committed-choice forms (a `match` / `matche` it
+/// produced is turned into `matcha` / `matchu`): the macro expansion decides which goal of an arm
+/// is its committed head.
+pub fn gen_c13_committed(s: &mut Source) -> (Program, Names, Vec<&'static str>) {
+    let (mut p, names, mut kinds) = gen_c13(s);
+    let pick = p.body.len() % 2 == 0;
+    for g in p.body.iter_mut() {
+        if let Goal::Match(kind, _, _) = g {
+            if matches!(kind, MatchKind::Match | MatchKind::Matche) {
+                *kind = if pick { MatchKind::Matcha } else { MatchKind::Matchu };
+            }
+            kinds.retain(|k| !matches!(*k, "match" | "matche"));
+            kinds.push(if *kind == MatchKind::Matcha { "matcha" } else { "matchu" });
+        }
+    }
+    (p, names, kinds)
+}
